@@ -303,6 +303,16 @@ def check(ctx, R):
     R.run("C06.h", rule_h, ctx)
     from . import preds
     R.run("C06.p", lambda R, c: preds.rule(R, c, "C06.p", ["block_is_deleted", "slice_is_deleted"]), ctx)
+    def _answers(R, c):
+        R.rule("C06.l", "R-PROV single definition of the sync answers: encode_state_as_update_vN returns merge_pending_vN(<encoder bytes>), "
+                        "encode_diff_vN the bytes of its EncoderVN, state_vector() BlockStore::get_state_vector — on every path, with "
+                        "no shortcut definition next to it (deletions do not move the state vector; an `already up to date` shortcut drops them)")
+        Y = c.yrs
+        for ver in ("1", "2"):
+            single_answer(R, "C06.l", Y.fn("yrs::transaction::ReadTxn::encode_state_as_update_v" + ver), r"merge_pending_v%s$" % ver, "merge_pending_v%s(encoder bytes)" % ver)
+            single_answer(R, "C06.l", Y.fn("yrs::transaction::ReadTxn::encode_diff_v" + ver), r"EncoderV%s::new$" % ver, "the bytes of the EncoderV%s the diff was written to" % ver)
+        single_answer(R, "C06.l", Y.fn("yrs::transaction::ReadTxn::state_vector"), r"BlockStore::get_state_vector$", "BlockStore::get_state_vector")
+    R.run("C06.l", _answers, ctx)
     from . import c02
     R.run("C06.j", lambda R, c: c02.rule_g(R, c, "C06.j"), ctx)
     R.run("C06.k", lambda R, c: c02.rule_h(R, c, "C06.k"), ctx)
